@@ -25,6 +25,21 @@ CHECKS = {
  "C20": ("virtual-time (testing/synctest) monitor comparing return time, returned set, error and Has() of WatchSet.Wait with an executable model over random close/cancel/settle schedules",
          "Exploration: seeded random schedules run under virtual time so that return instants are exact; up to three consecutive Wait calls per set; sets built with Add duplicates, Clear and Merge; all three settle regimes and cancellation before/after the first close.",
          "Event times are kept distinct so the model has no ties; real-timer granularity is out of scope (virtual time).", "5/C20"),
+ "C01": ("transcript monitor: retained snapshots (and retained result sequences) are re-queried after every later transaction/abort/collection window and compared with the transcript recorded at creation and with the model of that snapshot; virtual time for graveyard collection",
+         "Exploration: seeded random histories under testing/synctest with the DB started; up to 16 retained snapshots per history taken between transactions, while a write transaction is pending and from Commit; LPM-heavy variant with several objects per prefix.",
+         "Trusts the reference model (harness/dbsim) and the fixed probe battery; frozenness is decided by transcript equality on a fixed probe set per snapshot, not on all possible queries.", "5/C01"),
+ "C03": ("reference-model monitor (keyed map with learned revisions) over return values, error kinds and in-transaction reads of random write histories; race/checkptr slice",
+         "Exploration: seeded random histories of all RWTable write operations with guards drawn from current/stale/foreign/future revisions, writes on tables not held and through finished handles, commits and aborts; every return value and the query battery (inside the transaction, after commit, after abort) is compared with the model.",
+         "Trusts the map model; guard 0 and re-insertion of the same pointer are outside the domain.", "5/C03"),
+ "C04": ("reference-model monitor: full query battery on every index compared with results brute-forced from the model's object set (result-sequence oracle)",
+         "Exploration: seeded random histories over four schemas (unique, non-unique multi-key, NetIPPrefix LPM, unique LPM) with hostile keys; Get/List/Prefix/LowerBound/All/NumObjects/by-revision and AnyTable string queries inside write transactions and on snapshots.",
+         "Trusts the brute-force model; LPM Get/List only with full-length keys and stored prefixes; nil keys mean 'no key'.", "5/C04"),
+ "C07": ("change-stream monitor: per-iterator replay map and the model's committed write/deletion log, under virtual time with graveyard collection running",
+         "Exploration: seeded random histories under testing/synctest (collector every 1 ms of virtual time): iterators created at arbitrary points incl. inside transactions and aborted ones, Next with fresh/older/write transactions, partial consumption, Close; strictly increasing revisions, only-committed, replay==snapshot, deletions delivered, open channel closed by the next commit.",
+         "Snapshots passed to Next are monotone and not older than the iterator; the consumer-loop wake-up is covered by the channel-state check at each commit, not by blocked goroutines in this part.", "5/C07"),
+ "C09": ("revision monitor: the model learns each revision from Revision(wtxn) and asserts strict monotonicity, attribution, no change on rejected/no-op/aborted/collector/tracker commits, ByRevision order",
+         "Exploration: seeded random histories (sequential) plus histories with change iterators, Close and graveyard collection commits under virtual time.",
+         "Revisions are required to be strictly increasing, not +1; concurrent writers on other tables are exercised by the C05/C10 stress parts.", "5/C09"),
 }
 
 NOT_YET = "check not built yet in this session (planned: see DESIGN.md section 5)"
